@@ -17,11 +17,17 @@ from migen.fhdl.structure import _Operator, _Slice, _Assign, _Fragment
 # Print Constant -----------------------------------------------------------------------------------
 
 def _generate_constant(node):
-    return "{sign}{bits}'d{value}".format(
-        sign  = "" if node.value >= 0 else "-",
+    # Signed Constants are generated as sized signed literals (two's complement): an unsigned literal
+    # (or a unary minus applied to it) would turn the whole Verilog expression unsigned.
+    if node.signed:
+        return "{bits}'sd{value}".format(
+            bits  = str(node.nbits),
+            value = node.value if node.value >= 0 else 2**node.nbits + node.value,
+        ), True
+    return "{bits}'d{value}".format(
         bits  = str(node.nbits),
-        value = abs(node.value),
-    ), node.signed
+        value = node.value,
+    ), False
 
 # Print Signal -------------------------------------------------------------------------------------
 
